@@ -21,6 +21,8 @@ func runC14(c *Ctx, r *Report) {
 	c.checkSaveIsGlobal(r, "C14.R9")
 	r.Rule("C14.R10", "a saved line binds the name it is saved for: under SaveGlobals a line without `name=` (the definition form of a named function) is written only where the key was compared with the function's own name")
 	c.checkNamedFormOnlyForOwnName(r, "C14.R10")
+	r.Rule("C14.R12", "an alias keeps the function's name only if the name still denotes that function: under SaveGlobals the store is looked up by the function's own name and there is a path that drops the name")
+	c.checkAliasKeepsNameOnlyIfCurrent(r, "C14.R12")
 	r.Rule("C18.R6", "(shared with C18) the state file is read whole: the line scanner of repl.AutoLoad is given math.MaxInt as its line limit on every path (named functions are saved whatever their length)")
 	c.checkAutoLoadReadsWholeLines(r, "C18.R6")
 	r.Rule("C14.R11", "printing a number does not overflow it: every float -> integer conversion in package object (the Inspect / JSON printers of values) is dominated by -2^63 <= f < 2^63 with a strict upper bound")
